@@ -1,8 +1,372 @@
-//! Riders on every successful simulated `generate`: source maps (C06), path
-//! referential integrity (C20).
+//! Riders on every successful simulated `generate`: source maps (C06) and path
+//! referential integrity (C20), judged on the resulting tree with independent
+//! readers (VLQ decoder, GraphQL lexer, path normaliser, a tolerant scanner for
+//! three TypeScript shapes).
 
 use crate::e2::E2Scenario;
+use crate::indep::{self, TokIndex};
+use crate::model::Kind;
 use crate::sandbox::Tree;
 use crate::sim::RunReport;
+use serde_json::Value;
+use std::collections::{BTreeMap, BTreeSet};
 
-pub fn check_artifacts(_sc: &E2Scenario, _before: &Tree, _after: &Tree, _listed: &[String], _rep: &mut RunReport) {}
+#[derive(Debug, Clone)]
+pub struct Seg {
+    pub gen_line: usize,
+    pub gen_col: usize,
+    pub src: Option<(i64, i64, i64)>,
+    pub name: Option<i64>,
+}
+
+pub fn decode_map(mappings: &str) -> Result<Vec<Seg>, String> {
+    let raw = indep::vlq_decode_mappings(mappings)?;
+    let mut out = Vec::new();
+    let (mut si, mut sl, mut sc, mut ni) = (0i64, 0i64, 0i64, 0i64);
+    for (gl, line) in raw.iter().enumerate() {
+        let mut gc = 0i64;
+        for f in line {
+            if !(f.len() == 1 || f.len() == 4 || f.len() == 5) {
+                return Err(format!("segment with {} fields on generated line {gl}", f.len()));
+            }
+            gc += f[0];
+            if gc < 0 {
+                return Err(format!("negative generated column on line {gl}"));
+            }
+            let mut seg = Seg { gen_line: gl, gen_col: gc as usize, src: None, name: None };
+            if f.len() >= 4 {
+                si += f[1];
+                sl += f[2];
+                sc += f[3];
+                seg.src = Some((si, sl, sc));
+            }
+            if f.len() == 5 {
+                ni += f[4];
+                seg.name = Some(ni);
+            }
+            out.push(seg);
+        }
+    }
+    Ok(out)
+}
+
+fn utf16_len(s: &str) -> usize {
+    s.encode_utf16().count()
+}
+
+/// substring of `line` starting at UTF-16 column `col16`
+fn at_col16(line: &str, col16: usize) -> Option<&str> {
+    let mut c = 0;
+    for (i, ch) in line.char_indices() {
+        if c == col16 {
+            return Some(&line[i..]);
+        }
+        c += ch.len_utf16();
+    }
+    if c == col16 { Some("") } else { None }
+}
+
+struct MapFile {
+    /// absolute normalised paths of `sources`
+    sources: Vec<String>,
+    names: Vec<String>,
+    segs: Vec<Seg>,
+}
+
+fn str_tree<'a>(t: &'a Tree, p: &str) -> Option<String> {
+    t.get(p).map(|b| String::from_utf8_lossy(b).into_owned())
+}
+
+pub fn check_artifacts(sc: &E2Scenario, before: &Tree, after: &Tree, listed: &[String], rep: &mut RunReport) {
+    let p = &sc.project;
+    let schema_inputs: Vec<String> = sc.schema_inputs();
+    let op_inputs: Vec<String> = sc.op_inputs();
+    let graphql_inputs: BTreeSet<String> = schema_inputs.iter().chain(op_inputs.iter()).cloned().collect();
+    let mut tok_cache: BTreeMap<String, TokIndex> = BTreeMap::new();
+    let mut maps: BTreeMap<String, MapFile> = BTreeMap::new();
+
+    for map_path in listed.iter().filter(|l| l.ends_with(".map")) {
+        rep.probe("map_checked");
+        let gen_path = map_path.strip_suffix(".map").unwrap().to_string();
+        let (Some(map_text), Some(gen_text)) = (str_tree(after, map_path), str_tree(after, &gen_path)) else {
+            rep.violate(&["C06"], "C06.1-map-or-generated-file-missing", format!("{map_path}: map or generated file missing"));
+            continue;
+        };
+        // 1. shape
+        let Ok(v) = serde_json::from_str::<Value>(&map_text) else {
+            rep.violate(&["C06"], "C06.1-map-not-json", format!("{map_path} is not JSON"));
+            continue;
+        };
+        let (Some(sources), Some(names), Some(mappings)) = (v["sources"].as_array(), v["names"].as_array(), v["mappings"].as_str()) else {
+            rep.violate(&["C06"], "C06.1-map-shape", format!("{map_path}: sources/names/mappings missing or of the wrong type"));
+            continue;
+        };
+        if v["version"] != 3 {
+            rep.violate(&["C06"], "C06.1-map-shape", format!("{map_path}: version is {}", v["version"]));
+        }
+        let names: Vec<String> = names.iter().map(|n| n.as_str().unwrap_or("").to_string()).collect();
+        // 3a/C20.2. every `sources` entry resolves, relative to the map, to a GraphQL input of the project
+        let map_dir = indep::dirname(map_path).to_string();
+        let root = v["sourceRoot"].as_str().unwrap_or("");
+        let mut src_abs = Vec::new();
+        for s in sources {
+            let s = s.as_str().unwrap_or("");
+            let joined = if s.starts_with('/') { s.to_string() } else if root.is_empty() { format!("{map_dir}/{s}") } else { format!("{map_dir}/{root}/{s}") };
+            src_abs.push(indep::norm(&joined));
+        }
+        // 7. the generated file's last line names the map next to it
+        let last = gen_text.trim_end_matches('\n').rsplit('\n').next().unwrap_or("");
+        let want = format!("//# sourceMappingURL={}", indep::basename(map_path));
+        if last != want {
+            rep.violate(&["C06", "C20"], "C06.7-sourcemappingurl", format!("{gen_path}: last line is {last:?}, expected {want:?}"));
+        }
+        // 2. decode
+        let segs = match decode_map(mappings) {
+            Ok(s) => s,
+            Err(e) => {
+                rep.violate(&["C06"], "C06.2-mappings-undecodable", format!("{map_path}: {e}"));
+                continue;
+            }
+        };
+        let gen_lines: Vec<&str> = gen_text.split('\n').collect();
+        let mut prev: Option<(usize, usize)> = None;
+        let mut prev_named: Option<(i64, i64, i64, usize)> = None; // (src, line, col, name len16)
+        for s in &segs {
+            // 2. ordered and inside the generated text
+            if s.gen_line >= gen_lines.len() {
+                rep.violate(&["C06"], "C06.2-generated-line-out-of-range", format!("{map_path}: segment on generated line {} of {}", s.gen_line, gen_lines.len()));
+                break;
+            }
+            if s.gen_col > utf16_len(gen_lines[s.gen_line]) {
+                rep.violate(
+                    &["C06"],
+                    "C06.2-generated-column-out-of-range",
+                    format!("{map_path}: generated {}:{} beyond the line ({} units)", s.gen_line, s.gen_col, utf16_len(gen_lines[s.gen_line])),
+                );
+                break;
+            }
+            if let Some((pl, pc)) = prev {
+                if pl == s.gen_line && s.gen_col < pc {
+                    rep.violate(&["C06"], "C06.2-segments-unordered", format!("{map_path}: generated line {} column {} after column {pc}", s.gen_line, s.gen_col));
+                    break;
+                }
+            }
+            prev = Some((s.gen_line, s.gen_col));
+            let Some((si, sl, scol)) = s.src else { continue };
+            // 3. referenced source index exists
+            if si < 0 || si as usize >= src_abs.len() {
+                rep.violate(
+                    &["C06"],
+                    "C06.3-source-index-out-of-range",
+                    format!("{map_path}: segment at generated {}:{} references source index {si}; sources has {} entries", s.gen_line, s.gen_col, src_abs.len()),
+                );
+                break;
+            }
+            let src_path = &src_abs[si as usize];
+            // 3b / C20.2. a referenced entry resolves, relative to the map, to a GraphQL input
+            if !graphql_inputs.contains(src_path) {
+                rep.violate(
+                    &["C06", "C20"],
+                    "C20.2-map-source-not-an-input",
+                    format!("{map_path}: referenced sources entry {:?} resolves to {src_path}, which is not a GraphQL input of the project", sources[si as usize]),
+                );
+                break;
+            }
+            let Some(src_text) = str_tree(before, src_path) else { continue };
+            let idx = tok_cache.entry(src_path.clone()).or_insert_with(|| TokIndex::new(&src_text));
+            // 4. original position inside the file, at a token start or closing the preceding named range
+            if sl < 0 || scol < 0 || (sl as usize) >= idx.line_lens16.len() || (scol as usize) > idx.line_lens16[sl as usize] {
+                rep.violate(&["C06"], "C06.4-original-position-outside-file", format!("{map_path}: original {sl}:{scol} is outside {src_path}"));
+                break;
+            }
+            let tok = idx.at16(sl as usize, scol as usize);
+            let closes = prev_named.is_some_and(|(psi, pl, pc, n)| psi == si && pl == sl && pc + n as i64 == scol);
+            if tok.is_none() && !closes {
+                rep.violate(
+                    &["C06"],
+                    "C06.4-original-position-not-token-start",
+                    format!("{map_path}: original {src_path}:{sl}:{scol} is neither the start of a token nor the end of the preceding named range"),
+                );
+                break;
+            }
+            // 5. name = the token at the original position
+            if let Some(ni) = s.name {
+                if ni < 0 || ni as usize >= names.len() {
+                    rep.violate(&["C06"], "C06.5-name-index-out-of-range", format!("{map_path}: name index {ni} of {}", names.len()));
+                    break;
+                }
+                let name = &names[ni as usize];
+                match tok {
+                    Some(t) if t.text == *name => {}
+                    Some(t) => {
+                        // the name of the definition whose keyword starts here
+                        let heads = indep::scan_headers(&idx.toks);
+                        let ok = heads.iter().any(|h| h.kw_line == t.line && h.kw_col == t.col && h.name.as_deref() == Some(name.as_str()));
+                        if !ok {
+                            rep.violate(
+                                &["C06"],
+                                "C06.5-name-mismatch",
+                                format!("{map_path}: segment named {name:?} points at token {:?} ({src_path}:{sl}:{scol})", t.text),
+                            );
+                            break;
+                        }
+                    }
+                    None => {
+                        rep.violate(&["C06"], "C06.5-name-mismatch", format!("{map_path}: named segment {name:?} does not start at a token"));
+                        break;
+                    }
+                }
+                prev_named = Some((si, sl, scol, utf16_len(name)));
+            }
+        }
+        maps.insert(map_path.clone(), MapFile { sources: src_abs, names, segs });
+    }
+
+    // ---- 6. every definition's generated identifier carries a segment into its header
+    // schema declaration file
+    let schema_out = p.gen_str("schemaOutput").map(|s| p.abs(&s));
+    if let Some(so) = &schema_out {
+        if let (Some(m), Some(gen_text)) = (maps.get(&format!("{so}.map")), str_tree(after, so)) {
+            let gen_lines: Vec<&str> = gen_text.split('\n').collect();
+            for t in &p.schema.types {
+                if t.kind == Kind::Scalar {
+                    continue;
+                }
+                let def_file = p.schema_abs(t.file);
+                let Some(src_text) = str_tree(before, &def_file) else { continue };
+                let idx = tok_cache.entry(def_file.clone()).or_insert_with(|| TokIndex::new(&src_text));
+                let heads = indep::scan_headers(&idx.toks);
+                let Some(h) = heads.iter().find(|h| !h.extend && h.name.as_deref() == Some(t.name.as_str()) && h.keyword != "fragment") else { continue };
+                let name_tok = &idx.toks[h.tok];
+                let hit = m.segs.iter().any(|s| {
+                    s.src.is_some_and(|(si, sl, sc)| {
+                        si >= 0
+                            && (si as usize) < m.sources.len()
+                            && m.sources[si as usize] == def_file
+                            && ((sl as usize == name_tok.line && sc as usize == name_tok.col16) || (sl as usize == h.kw_line && sc as usize == h.kw_col))
+                    }) && s.name.is_some_and(|n| n >= 0 && (n as usize) < m.names.len() && m.names[n as usize] == t.name)
+                        && gen_lines.get(s.gen_line).and_then(|l| at_col16(l, s.gen_col)).is_some_and(|rest| rest.starts_with(t.name.as_str()))
+                });
+                if !hit {
+                    rep.violate(
+                        &["C06"],
+                        "C06.6-schema-type-unmapped",
+                        format!("{so}.map: no segment maps a generated identifier {:?} to its definition header at {def_file}:{}:{}", t.name, name_tok.line, name_tok.col),
+                    );
+                    break;
+                }
+                rep.probe("type_header_mapped");
+            }
+        }
+    }
+    // operation declaration files: own and imported definitions
+    let files_model: Vec<(String, Vec<crate::model::ImportLine>, Vec<String>, bool)> = p
+        .ops
+        .iter()
+        .enumerate()
+        .map(|(i, f)| (p.op_abs(i), f.imports.clone(), f.defs.iter().filter(|d| d.is_fragment()).filter_map(|d| d.name().map(String::from)).collect(), true))
+        .collect();
+    for (i, f) in p.ops.iter().enumerate() {
+        let decl = p.decl_abs(i);
+        let (Some(m), Some(gen_text)) = (maps.get(&format!("{decl}.map")), str_tree(after, &decl)) else { continue };
+        let gen_lines: Vec<&str> = gen_text.split('\n').collect();
+        let reference = crate::e3::reference_closure(&files_model, i);
+        let mut wanted: Vec<(String, String)> = f.defs.iter().filter_map(|d| d.name().map(|n| (p.op_abs(i), n.to_string()))).collect();
+        for (fi, n) in &reference.imported {
+            wanted.push((p.op_abs(*fi), n.clone()));
+            rep.probe("imported_fragment_in_declaration");
+        }
+        for (def_file, name) in wanted {
+            let Some(src_text) = str_tree(before, &def_file) else { continue };
+            let idx = tok_cache.entry(def_file.clone()).or_insert_with(|| TokIndex::new(&src_text));
+            let heads = indep::scan_headers(&idx.toks);
+            let Some(h) = heads.iter().find(|h| h.name.as_deref() == Some(name.as_str())) else { continue };
+            let name_tok = &idx.toks[h.tok];
+            let hit = m.segs.iter().any(|s| {
+                s.src.is_some_and(|(si, sl, sc)| {
+                    si >= 0
+                        && (si as usize) < m.sources.len()
+                        && m.sources[si as usize] == def_file
+                        && ((sl as usize == name_tok.line && sc as usize == name_tok.col16) || (sl as usize == h.kw_line && sc as usize == h.kw_col))
+                }) && gen_lines.get(s.gen_line).and_then(|l| at_col16(l, s.gen_col)).is_some()
+            });
+            if !hit {
+                let class = if def_file == p.op_abs(i) { "C06.6-operation-definition-unmapped" } else { "C06.6-imported-fragment-unmapped" };
+                rep.violate(
+                    &["C06"],
+                    class,
+                    format!("{decl}.map: no segment leads to the header of {name:?} at {def_file}:{}:{}", name_tok.line, name_tok.col),
+                );
+                break;
+            }
+        }
+    }
+
+    // ---- C20.1: the schema import specifier of every operation declaration file / resolvers file
+    let module_spec = p.gen_str("schemaModuleSpecifier");
+    let mut decls: Vec<String> = (0..p.ops.len()).map(|i| p.decl_abs(i)).collect();
+    if let Some(r) = p.gen_str("resolversOutput") {
+        decls.push(p.abs(&r));
+    }
+    for d in decls {
+        let Some(text) = str_tree(after, &d) else { continue };
+        let Some(spec) = schema_import_specifier(&text) else {
+            // standalone mode etc. always import the schema types; a file without the import is suspicious
+            rep.violate(&["C20"], "C20.1-schema-import-missing", format!("{d}: no `import type * as Schema from \"...\"` line"));
+            continue;
+        };
+        match (&module_spec, &schema_out) {
+            (Some(ms), _) => {
+                if spec != *ms {
+                    rep.violate(&["C20"], "C20.1-schema-module-specifier", format!("{d}: imports {spec:?}, configured schemaModuleSpecifier is {ms:?}"));
+                }
+            }
+            (None, Some(so)) => {
+                if !(spec.starts_with("./") || spec.starts_with("../")) {
+                    rep.violate(&["C20"], "C20.1-specifier-not-relative", format!("{d}: schema import specifier {spec:?} does not start with ./ or ../"));
+                }
+                let resolved = indep::resolve_from_file(&d, &spec);
+                // invert the TS -> JS extension table
+                let cands: Vec<String> = js_to_ts_candidates(&resolved);
+                if !cands.iter().any(|c| c == so) {
+                    rep.violate(
+                        &["C20"],
+                        "C20.1-schema-import-target",
+                        format!("{d}: imports {spec:?} = {resolved}, which does not designate the schema output {so}"),
+                    );
+                }
+                rep.probe("schema_specifier_resolved");
+            }
+            _ => {}
+        }
+    }
+}
+
+/// `import type * as Schema from "<spec>"`
+pub fn schema_import_specifier(text: &str) -> Option<String> {
+    for l in text.split('\n') {
+        let t = l.trim();
+        if t.starts_with("import") && t.contains("* as Schema") && t.contains(" from ") {
+            let after = t.split(" from ").nth(1)?;
+            let q = after.chars().next()?;
+            if q == '"' || q == '\'' {
+                let rest = &after[1..];
+                return rest.find(q).map(|e| rest[..e].to_string());
+            }
+        }
+    }
+    None
+}
+
+/// TypeScript files that an import of `path` (with a JS extension) may designate.
+fn js_to_ts_candidates(path: &str) -> Vec<String> {
+    let mut v = vec![path.to_string()];
+    for (js, tss) in [(".js", &[".d.ts", ".ts", ".tsx"][..]), (".cjs", &[".d.cts", ".cts"][..]), (".mjs", &[".d.mts", ".mts"][..])] {
+        if let Some(stem) = path.strip_suffix(js) {
+            for ts in tss {
+                v.push(format!("{stem}{ts}"));
+            }
+        }
+    }
+    v
+}
